@@ -32,7 +32,18 @@ def gen_bytes(chk):
     return d['bytes']
 
 
-def _lift(case):
+def _lift_chunk(cases):
+    """a block of strings is decoded first and lifted afterwards (as a disassembler front end does): what is lifted is the
+    instruction object as it is after the other strings of the block have been decoded"""
+    from miasmx.arch.ia32_arch import x86mnemo
+    dec = []
+    for c in cases:
+        st, ins = irlib.guarded(x86mnemo.dis, bytes(c['b']), 5)
+        dec.append(ins if st == 'ok' else None)      # decoder crashes are C10's subject
+    return [_lift(c, ins) for c, ins in zip(cases, dec)]
+
+
+def _lift(case, ins='decode'):
     from miasmx.arch.ia32_arch import x86mnemo
     from miasmx.arch import ia32_sem
     from miasmx.tools import emul_helper
@@ -40,10 +51,11 @@ def _lift(case):
     from miasmx.tools.modint import uint32
     b = bytes(case['b'])
     rec = {'id': case['id'], 'b': case['b'], 'st': 'none', 'affs': [], 'mn': ''}
-    try:
-        ins = x86mnemo.dis(b)
-    except Exception:
-        return rec                      # decoder crashes are C10's subject
+    if ins == 'decode':
+        try:
+            ins = x86mnemo.dis(b)
+        except Exception:
+            return rec                      # decoder crashes are C10's subject
     if ins is None:
         return rec
     name = ins.m.name
@@ -123,8 +135,27 @@ def run(tier, chk):
     allb = gen_bytes(chk)
     if quick:
         allb = [b for b in allb if rnd.random() < 0.35]
+    # the decodable strings of the C01 space (the property's quantifier): every base form, and the one-deviation variants
+    from . import ia32space
+    base = sorted(set(ia32space.gen(0, False, None, chk)['done']))
+    dev1 = sorted(set(ia32space.gen(1, False, None, chk)['done']) - set(base))
+    if quick:
+        # every variant of at most three bytes (all ModRM register forms of the one- and two-byte opcodes), a sample of the longer ones
+        short = [h for h in dev1 if len(h) <= 6]
+        rest = [h for h in dev1 if len(h) > 6]
+        dev1 = short + rnd.sample(rest, min(len(rest), 30000))
+    seenb = set(bytes(b).hex() for b in allb)
+    for h in base + dev1:
+        hh = h + bytes(JUNK).hex()
+        if hh not in seenb:
+            seenb.add(hh)
+            allb.append(list(bytes.fromhex(hh)))
+    chk.cov['strings_from_the_C01_space'] = len(base) + len(dev1)
     cases = [{'id': i, 'b': b} for i, b in enumerate(allb)]
-    recs = irlib.pmap(_lift, cases)
+    order = list(cases)
+    rnd.shuffle(order)
+    recs = [r for ch in irlib.pmap(_lift_chunk, [order[k:k + 256] for k in range(0, len(order), 256)], chunk=1) for r in ch]
+    recs.sort(key=lambda r: r['id'])
     lifted = [r for r in recs if r['st'] != 'none']
     # one record per distinct (mnemonic, prefixes, lifted list): identical lifts need no second judgement
     seen, uniq = {}, []
